@@ -23,12 +23,12 @@ RULE = ("Requests of every outcome class (syntax error by truncation, validation
 ASSUMPTIONS = C8.ASSUMPTIONS + [
     "Middleware exit events are only ordered in the blocking configurations (a plain middleware returns as soon as the deferred resolver is submitted).",
 ]
-BUDGET = {"quick": 110, "thorough": 1500}
+BUDGET = {"quick": 200, "thorough": 1800}
 
 STAGES = {"Q": "query", "P": "parsing", "V": "validation", "E": "execution"}
 
 
-def make_recorders(tl, n_inst, n_mw, with_tracer):
+def make_recorders(tl, n_inst, n_mw, with_tracer, valued=False):
     from py_gql.execution import Instrumentation, MultiInstrumentation
     from py_gql.tracers import ApolloTracer
 
@@ -86,7 +86,26 @@ def make_recorders(tl, n_inst, n_mw, with_tracer):
                 tl.append(("M-", k, tuple(info.path)))
         return mw
 
+    if valued:
+        return inst, [ValueMw(k, mk(k)) for k in range(n_mw)], tracer
     return inst, [mk(k) for k in range(n_mw)], tracer
+
+
+class ValueMw:
+    """A middleware that is a *value*: instances configured alike compare (and hash) equal although each request has its own -
+    the middlewares of a request are the objects it was given, not whatever equals them."""
+
+    def __init__(self, k, call):
+        self.k, self._call = k, call
+
+    def __eq__(self, other):
+        return isinstance(other, ValueMw) and other.k == self.k
+
+    def __hash__(self):
+        return hash(("ValueMw", self.k))
+
+    def __call__(self, next_, root, ctx, info, **args):
+        return self._call(next_, root, ctx, info, **args)
 
 
 def check_timeline(tl, n_inst, n_mw, ref, config, executed, tracer):
@@ -220,7 +239,7 @@ def check_case(case, ctx=None):
             req["document"] = None
     for config, schedule in case["runs"]:
         tl = []
-        inst, mws, tracer = make_recorders(tl, case["n_inst"], case["n_mw"], case["tracer"])
+        inst, mws, tracer = make_recorders(tl, case["n_inst"], case["n_mw"], case["tracer"], valued=wj["salt"] % 2 == 1)
         extra = {"instrumentation": inst, "middlewares": mws}
         world = C8.make_world(eff, wj, ())
         from py_gql.execution import Executor, BlockingExecutor
